@@ -390,6 +390,65 @@ func P4(rc *RC) {
 		}
 	}
 	rc.S.Count("P4.writes-through-callee-parameters", nIndirect)
+	// slices handed to an appender: append(g, …) whose result goes elsewhere, bytes.NewBuffer(g)
+	// (the buffer takes ownership and appends in place while capacity lasts)
+	appendedThrough := map[*ssa.Global]string{}
+	initVal := map[*ssa.Global]ssa.Value{}
+	loadedGlobal := func(v ssa.Value) *ssa.Global {
+		for i := 0; i < 5; i++ {
+			switch x := v.(type) {
+			case *ssa.UnOp:
+				if x.Op == token.MUL {
+					if g, ok := x.X.(*ssa.Global); ok {
+						return g
+					}
+				}
+				return nil
+			case *ssa.Slice:
+				v = x.X
+			case *ssa.ChangeType:
+				v = x.X
+			default:
+				return nil
+			}
+		}
+		return nil
+	}
+	for _, fn := range p.ModuleFuncs() {
+		if !inModule(fn) {
+			continue
+		}
+		root := fn
+		for root.Parent() != nil {
+			root = root.Parent()
+		}
+		isInit := root.Name() == "init" || strings.HasPrefix(root.Name(), "init#")
+		for _, b := range fn.Blocks {
+			for _, ins := range b.Instrs {
+				if st, ok := ins.(*ssa.Store); ok && isInit {
+					if g, ok := st.Addr.(*ssa.Global); ok {
+						initVal[g] = st.Val
+					}
+				}
+				ci, ok := ins.(ssa.CallInstruction)
+				if !ok || len(ci.Common().Args) == 0 {
+					continue
+				}
+				what := ""
+				if bi, ok := ci.Common().Value.(*ssa.Builtin); ok && bi.Name() == "append" {
+					what = "append"
+				} else if c := ci.Common().StaticCallee(); c != nil && c.Pkg != nil && c.Pkg.Pkg.Path() == "bytes" && c.Name() == "NewBuffer" {
+					what = "bytes.NewBuffer"
+				}
+				if what == "" {
+					continue
+				}
+				if g := loadedGlobal(ci.Common().Args[0]); g != nil && !isInit {
+					appendedThrough[g] = what + " in " + oFnKey(fn)
+				}
+			}
+		}
+	}
 	var globals []*ssa.Global
 	for path, sp := range p.SSAPkgs {
 		if !strings.HasPrefix(path, load.Module) || strings.HasSuffix(path, "/genlib2") {
@@ -432,6 +491,15 @@ func P4(rc *RC) {
 		}
 		switch {
 		case len(writes) == 0:
+			if use := appendedThrough[g]; use != "" {
+				if why := spareCapacity(initVal[g]); why != "" {
+					o := rc.S.Viol("P4", name, pos, fmt.Sprintf("global %s is never assigned after initialisation, but %s appends through it and its initial value %s: the appended bytes land in the shared backing array, so concurrent operations overwrite each other's data", name, use, why))
+					o.Sig = "append through shared slice with spare capacity"
+					continue
+				}
+				rc.S.Ok("P4", name, pos, "never written after initialisation; "+use+" appends through it, and its initial value has no spare capacity (the first append reallocates)")
+				continue
+			}
 			rc.S.Ok("P4", name, pos, "never written after initialisation")
 		case len(opWrites) == 0:
 			var who []string
@@ -487,6 +555,44 @@ func P4(rc *RC) {
 			}
 		}
 	}
+}
+
+// spareCapacity says why the initial value of a package-level slice may have cap > len ("" when
+// it provably has none: nil, a composite literal, a conversion of a constant string, or
+// make with equal length and capacity).
+func spareCapacity(v ssa.Value) string {
+	switch x := v.(type) {
+	case nil:
+		return ""
+	case *ssa.Const:
+		return ""
+	case *ssa.Slice:
+		if _, ok := x.X.(*ssa.Alloc); ok && x.Low == nil && x.High == nil && x.Max == nil {
+			return "" // composite literal: the whole fresh array
+		}
+		return "is a reslice (capacity may exceed length)"
+	case *ssa.Convert:
+		if _, ok := x.X.(*ssa.Const); ok {
+			return "" // []byte("…") of a constant at package level is laid out statically, len == cap
+		}
+		return "is a conversion of a non-constant value"
+	case *ssa.MakeSlice:
+		if x.Len == x.Cap {
+			return ""
+		}
+		if a, ok := x.Len.(*ssa.Const); ok {
+			if b, ok := x.Cap.(*ssa.Const); ok && a.Int64() == b.Int64() {
+				return ""
+			}
+		}
+		return "is made with a capacity larger than its length"
+	case *ssa.Call:
+		if bi, ok := x.Call.Value.(*ssa.Builtin); ok && bi.Name() == "append" {
+			return "is built with append (capacity beyond the length is unspecified)"
+		}
+		return "comes from a call whose result may have spare capacity"
+	}
+	return "is not provably len == cap"
 }
 
 func uniqSorted(s []string) []string {
